@@ -8,6 +8,7 @@
 //   os fault <k> <kind> <persist> <session>  the k-th write/writev on an output fails (kind: enospc | eio | short), and
 //                                            every later one too if persist = 1; print API results + files
 //                                            (kind any-<kind>: on whichever output, not only the first)
+//   os stk <k> <kind> <persist> <session>    as fault; prints instead of trace and files: S <@api-call markers and every data call wN<o|f|s>:<output>>
 //   answer: I <api results> | T <trace> | F <file>=<hex> ...     (trace/files as applicable; N=<count of tracked calls>)
 #include "common.h"
 #include <dlfcn.h>
@@ -44,6 +45,7 @@ struct Cfg {
     int faults_fired = 0;
     bool tracing = false;
     std::string trace;
+    std::string trace2;         // mode stk: API-call markers and every data call with its outcome
 } cfg;
 
 bool tracked_fd(int fd, std::string& path) {
@@ -93,10 +95,13 @@ int on_data_call(int fd, size_t total, const char* what) {
     if (cfg.tracing) cfg.trace += std::string(what) + ":" + base(path) + ":" + std::to_string(total) + ",";
     if (cfg.fault_at > 0 && (cfg.any_output || output_index(path) == 0) && (cfg.count == cfg.fault_at || (cfg.persist && cfg.count > cfg.fault_at))) {
         cfg.faults_fired++;
-        if (cfg.fault_kind == 3 && total > 1) return 2;
+        bool cut = cfg.fault_kind == 3 && total > 1;
+        if (cfg.tracing) cfg.trace2 += "w" + std::to_string(total) + (cut ? "s:" : "f:") + std::to_string(output_index(path)) + ",";
+        if (cut) return 2;
         errno = cfg.fault_kind == 2 ? EIO : ENOSPC;
         return 1;
     }
+    if (cfg.tracing) cfg.trace2 += "w" + std::to_string(total) + "o:" + std::to_string(output_index(path)) + ",";
     return 0;
 }
 }  // namespace
@@ -160,7 +165,14 @@ void wipe_dir(const std::string& dir) {
 }
 }  // namespace
 
+namespace { void api_marker(const char* tok) {
+    if (!cfg.tracing) return;
+    if (tok[0] == '=') { cfg.trace2 += std::string(tok) + ","; return; }       // a note of the session runner (=H<len>, =L<len>)
+    cfg.trace2 += std::string("@") + tok[0] + (tok[0] == 'R' ? std::string(1, tok[std::strlen(tok) - 1]) : std::string()) + ",";
+} }
+
 int vh::run_os(int, char**) {
+    vh::g_api_hook = api_marker;
     const char* basedir = std::getenv("VERIF_TMP");
     std::string t = std::string(basedir ? basedir : "/tmp") + "/cdnsos-XXXXXX";
     std::vector<char> buf(t.begin(), t.end()); buf.push_back(0);
@@ -172,7 +184,7 @@ int vh::run_os(int, char**) {
         auto a = vh::split(line, ' ');
         if (a.size() < 3) { std::cout << "bad-op\n"; continue; }
         std::string mode = a[1];
-        std::size_t skip = mode == "full" ? 2 : mode == "crash" ? 3 : 5;
+        std::size_t skip = mode == "full" ? 2 : mode == "crash" ? 3 : 5;      // (fault and stk: k, kind, persist)
         std::string session = "exp";
         for (std::size_t i = skip; i < a.size(); i++) session += " " + a[i];
         // PRE:<name>=<hex> tokens (files that exist before the scenario) are consumed here
@@ -206,7 +218,7 @@ int vh::run_os(int, char**) {
             std::cout << "I " << (WIFEXITED(st) ? (WEXITSTATUS(st) == 7 ? "completed" : "crashed-at-k") : "signal") << " | F" << list_dir(dir) << std::endl;
         } else {
             cfg.tracing = true;
-            if (mode == "fault") {
+            if (mode == "fault" || mode == "stk") {
                 cfg.fault_at = std::atoi(a[2].c_str());
                 std::string kind = a[3];
                 if (kind.rfind("any-", 0) == 0) { cfg.any_output = true; kind = kind.substr(4); }
@@ -216,7 +228,8 @@ int vh::run_os(int, char**) {
             cfg.active = true;
             std::string res = vh::exp_session(sess2, 0, dir, true);
             cfg.active = false;
-            std::cout << res << " | N=" << cfg.count << " fired=" << cfg.faults_fired << " | T " << cfg.trace << " | F" << list_dir(dir) << std::endl;
+            if (mode == "stk") std::cout << res << " | N=" << cfg.count << " fired=" << cfg.faults_fired << " | S " << cfg.trace2 << std::endl;
+            else std::cout << res << " | N=" << cfg.count << " fired=" << cfg.faults_fired << " | T " << cfg.trace << " | F" << list_dir(dir) << std::endl;
         }
         n++;
     }
